@@ -195,6 +195,8 @@ func rootIdent(e ast.Expr) string {
 			e = x.X
 		case *ast.StarExpr:
 			e = x.X
+		case *ast.SliceExpr:
+			e = x.X
 		case *ast.Ident:
 			return x.Name
 		default:
@@ -364,6 +366,90 @@ func globalWriters(files []*ast.File) [][2]string {
 	return out
 }
 
+// aliasFacts: every call internal.UnsafeBytes2Str(x) in package valid — the zero-copy conversion is
+// safe only when x's backing array is private to the call and never written again.
+// (function, variable, origin of the variable: make | other, written after the call, call inside a loop)
+type aliasFact struct {
+	fn, v, origin      string
+	writtenAfter, loop bool
+}
+
+func aliasFacts(files []*ast.File) []aliasFact {
+	var out []aliasFact
+	for _, f := range files {
+		for _, d := range f.Decls {
+			fd, ok := d.(*ast.FuncDecl)
+			if !ok || fd.Body == nil {
+				continue
+			}
+			// calls, with loop nesting
+			type callSite struct {
+				pos  token.Pos
+				v    string
+				loop bool
+			}
+			var calls []callSite
+			var walk func(n ast.Node, inLoop bool)
+			walk = func(n ast.Node, inLoop bool) {
+				ast.Inspect(n, func(m ast.Node) bool {
+					switch x := m.(type) {
+					case *ast.ForStmt:
+						if m != n {
+							walk(x.Body, true)
+							return false
+						}
+					case *ast.RangeStmt:
+						if m != n {
+							walk(x.Body, true)
+							return false
+						}
+					case *ast.CallExpr:
+						if se, ok := x.Fun.(*ast.SelectorExpr); ok && se.Sel.Name == "UnsafeBytes2Str" && len(x.Args) == 1 {
+							calls = append(calls, callSite{x.Pos(), rootIdent(x.Args[0]), inLoop})
+						}
+					}
+					return true
+				})
+			}
+			walk(fd.Body, false)
+			for _, c := range calls {
+				af := aliasFact{fn: fd.Name.Name, v: c.v, origin: "other", loop: c.loop}
+				ast.Inspect(fd.Body, func(m ast.Node) bool {
+					switch x := m.(type) {
+					case *ast.AssignStmt:
+						for i, l := range x.Lhs {
+							if rootIdent(l) != c.v {
+								continue
+							}
+							if x.Tok == token.DEFINE {
+								if i < len(x.Rhs) {
+									if ce, ok := x.Rhs[i].(*ast.CallExpr); ok {
+										if id, ok := ce.Fun.(*ast.Ident); ok && id.Name == "make" {
+											af.origin = "make"
+										}
+									}
+								}
+								continue
+							}
+							if x.Pos() > c.pos {
+								af.writtenAfter = true
+							}
+						}
+					case *ast.IncDecStmt:
+						if rootIdent(x.X) == c.v && x.Pos() > c.pos {
+							af.writtenAfter = true
+						}
+					}
+					return true
+				})
+				out = append(out, af)
+			}
+		}
+	}
+	sort.Slice(out, func(i, j int) bool { return out[i].fn+out[i].v < out[j].fn+out[j].v })
+	return out
+}
+
 func writeIfChanged(path, content string) {
 	if old, err := os.ReadFile(path); err == nil && string(old) == content {
 		return
@@ -439,6 +525,17 @@ func extractMain(args []string) {
 			sep = ""
 		}
 		sb.WriteString(fmt.Sprintf("  (%s, %s)%s\n", leanStr(e[0]), leanStr(e[1]), sep))
+	}
+	sb.WriteString("]\n\n")
+	sb.WriteString("/-- every `internal.UnsafeBytes2Str(x)` of package valid: (function, variable, origin of the variable: make / other, written after the call, call inside a loop) -/\n")
+	sb.WriteString("def aliasFacts : List (String × String × String × Bool × Bool) := [\n")
+	afs := aliasFacts(vfiles)
+	for i, a := range afs {
+		sep := ","
+		if i == len(afs)-1 {
+			sep = ""
+		}
+		sb.WriteString(fmt.Sprintf("  (%s, %s, %s, %v, %v)%s\n", leanStr(a.fn), leanStr(a.v), leanStr(a.origin), a.writtenAfter, a.loop, sep))
 	}
 	sb.WriteString("]\n\nend PGV.Generated\n")
 	if *out == "" {
